@@ -170,7 +170,7 @@ def value_lists(rng, name, P, dtype):
 def run(ctx):
     quick = ctx.tier == "quick"
     rng = random.Random(ctx.seed)
-    nsets = 4 if quick else 20
+    nsets = 6 if quick else 60
     B = Bounded("%d functions (oil b_o_Standing, solution_gor_Standing, oil_compressibility_undersat_Spivey [pressures >= bubble point only], 5 water correlations, Fluid.oil_FVF/oil_viscosity/"
                 "water_FVF/water_viscosity/gas_FVF/gas_viscosity) x %d fluid parameter sets (2 fixed + seeded T 100..300, API 20..50, gas gravity 0.6..1.1, GOR 100..2000, python int and float "
                 "T/GOR, salinity 0..20) x dtypes float64/float32/int64/int32 x arrays {n = 11 mixed both sides of / next to / exactly at the bubble point (exact only for float64; float32(pb), floor/ceil(pb) "
